@@ -98,6 +98,42 @@ func (o payloaderOpts) build() rtp.Payloader {
 	return nil
 }
 
+// apply writes the option fields into a live payloader (they are plain exported fields that an
+// application may change between calls).
+func (o payloaderOpts) apply(p rtp.Payloader) {
+	switch q := p.(type) {
+	case *codecs.H264Payloader:
+		q.DisableStapA = o.disableStapA
+	case *codecs.H265Payloader:
+		q.AddDONL, q.SkipAggregation = o.addDONL, o.skipAgg
+	case *codecs.VP8Payloader:
+		q.EnablePictureID = o.vp8PicID
+	case *codecs.VP9Payloader:
+		q.FlexibleMode = o.vp9Flex
+	}
+}
+
+// toggle flips one drawn option; reports whether anything changed.
+func (o *payloaderOpts) toggle(t *core.Tape) bool {
+	switch o.kind {
+	case kH264, kH264AVC:
+		o.disableStapA = !o.disableStapA
+	case kH265, kH265DONL:
+		if t.Bool() {
+			o.addDONL = !o.addDONL
+		} else {
+			o.skipAgg = !o.skipAgg
+		}
+	case kVP8:
+		o.vp8PicID = !o.vp8PicID
+	case kVP9, kVP9Flex:
+		o.vp9Flex = !o.vp9Flex
+	default:
+		return false
+	}
+	return true
+}
+
 func (o payloaderOpts) String() string {
 	return fmt.Sprintf("%s{stapAoff=%v donl=%v skipAgg=%v picid=%v flex=%v init=%d}", kindNames[o.kind], o.disableStapA, o.addDONL, o.skipAgg, o.vp8PicID, o.vp9Flex, o.vp9Init)
 }
